@@ -496,6 +496,41 @@ def rule_scroll_margin(ctx: Ctx) -> RuleResult:
     return rr
 
 
+def rule_region_edits(ctx: Ctx) -> RuleResult:
+    """Line edits inside the scrolling region (scroll, IL, DL) pair one `self.term.pop(i)` with one
+    `self.term.insert(j, ...)`.  The indexes are written in terms of the grid *before* the edit, so the pop has to come
+    first (after an insert every index at or below it has moved by one).  IL and DL work on the cursor row and must
+    be ignored when that row lies outside the region - otherwise lines cross the margins."""
+    p = ctx.p
+    rr = RuleResult("ORDER", "C15.14", "scroll / insert_lines / remove_lines pop before they insert; IL and DL return when the row is outside the scrolling region", floor=4)
+    for q in ("scroll", "insert_lines", "remove_lines"):
+        fi = p.func(f"{VT}.TermCanvas.{q}")
+        for owner in ast.walk(fi.node):
+            for fld in ("body", "orelse"):
+                blk = getattr(owner, fld, None)
+                if not isinstance(blk, list):
+                    continue
+                seq = []
+                for st in blk:
+                    for c in ast.walk(st) if isinstance(st, (ast.Expr, ast.Assign)) else []:
+                        if isinstance(c, ast.Call) and isinstance(c.func, ast.Attribute) and c.func.attr in ("pop", "insert") and ast.unparse(c.func.value) == f"{fi.self_name}.term":
+                            seq.append((c.func.attr, st))
+                if {k for k, _ in seq} == {"pop", "insert"}:
+                    rr.inst(f"{short(fi)}:{norm(seq[0][1], 40)}", True, {"function": short(fi), "order": [k for k, _ in seq]})
+                    if seq[0][0] != "pop":
+                        rr.add(finding("ORDER", fi, seq[0][1], f"{fi.name}() inserts before it pops: `{norm(seq[1][1], 50)}` then removes the line that was one above the intended one (the indexes are those of the grid before the edit)", construct=f"{fi.name}: insert before pop"))
+    for q in ("insert_lines", "remove_lines"):
+        fi = p.func(f"{VT}.TermCanvas.{q}")
+        cfg = cfg_of(fi)
+        edits = nodes_where(cfg, lambda x: isinstance(x, ast.Call) and isinstance(x.func, ast.Attribute) and x.func.attr in ("pop", "insert") and ast.unparse(x.func.value) == f"{fi.self_name}.term")
+        guards = [t for t in cfg.nodes if t.kind == "test" and "scrollregion_start" in ast.unparse(t.ast) and "scrollregion_end" in ast.unparse(t.ast)]
+        rr.inst(f"{short(fi)}:region guard", True, {"function": short(fi), "guards": [norm(g.ast, 70) for g in guards]})
+        ok = guards and all(e not in cfg.reachable([cfg.entry], avoid=guards, include_start=True) for e in edits)
+        if not ok:
+            rr.add(finding("ORDER", fi, fi.node, f"{fi.name}() edits the grid without first testing that the row lies inside the scrolling region: with the cursor outside the region IL/DL move lines across the margins (a VT100 ignores them there)", construct=f"{fi.name}: no region test"))
+    return rr
+
+
 def run(ctx: Ctx):
     p = ctx.p
     tc = f"{VT}.TermCanvas"
@@ -517,6 +552,7 @@ def run(ctx: Ctx):
         rule_rotten_flag(ctx),
         rule_linefeed_mirror(ctx),
         rule_scroll_margin(ctx),
+        rule_region_edits(ctx),
     ]
     return out
 
@@ -525,6 +561,8 @@ from ..mutants import Mut  # noqa: E402
 
 _V = "urwid/vterm.py"
 MUTANTS = [
+    Mut("il-inserts-before-pop", "urwid/vterm.py", "TermCanvas.insert_lines", "            self.term.pop(self.scrollregion_end)\n            self.term.insert(row, self.empty_line())", "            self.term.insert(row, self.empty_line())\n            self.term.pop(self.scrollregion_end)", "ORDER|vterm.TermCanvas.insert_lines"),
+    Mut("dl-outside-region", "urwid/vterm.py", "TermCanvas.remove_lines", "        if not self.scrollregion_start <= row <= self.scrollregion_end:\n            # outside the scrolling region: ignored\n            return\n", "", "ORDER|vterm.TermCanvas.remove_lines"),
     Mut("autowrap-scrolls-at-screen-bottom", "urwid/vterm.py", "TermCanvas.push_cursor", "                    if y >= self.scrollregion_end:", "                    if y >= self.height - 1:", "SIB|vterm.TermCanvas.push_cursor"),
     Mut("dch-by-slice-overpads", "urwid/vterm.py", "TermCanvas.remove_chars", "        while chars > 0:\n            self.term[y].pop(x)\n            self.term[y].append(self.empty_char())\n            chars -= 1", "        line = self.term[y]\n        del line[x : x + chars]\n        line.extend([self.empty_char()] * chars)", "PAIR|vterm.TermCanvas.remove_chars"),
     Mut("rotten-flag-kept-at-last-column", "urwid/vterm.py", "TermCanvas.push_cursor", "            if x + 1 < self.width:\n                x += 1\n\n            self.is_rotten_cursor = False", "            if x + 1 < self.width:\n                x += 1\n                self.is_rotten_cursor = False\n", "PASS|vterm.TermCanvas.push_cursor"),
